@@ -88,6 +88,66 @@ class RemoteServer():
             #send_msg(cli, None, comment='no worker')
             logger.debug('Dummy connect successful')
 
+    def _serve_client(self, cli):
+        ''' Handle a single request of a newly connected client. Return False if the server should stop.
+        '''
+        logger.debug('Waiting for initial context id and worker flag')
+        header = recv_msg(cli, comment='server: header')
+        if header is None:
+            if self.close_on_none:
+                logger.info('"None" received')
+                return False
+
+            return True
+
+        ctx_id, is_worker = header
+        logger.debug('Received context id: {}, worker flag: {}', ctx_id, is_worker)
+
+        if is_worker:
+            if ctx_id is not None:
+                logger.debug('Creating a new worker within context: {}', ctx_id)
+                ctx = self.contexts.get(ctx_id, None)
+                if ctx is None:
+                    logger.warning('Context {} does not exist!', ctx_id)
+                    cli.close() # let the client know right away, it is waiting for an answer
+                    return True
+
+                ctx.call(cli)
+            else:
+                logger.debug('Waiting for the RemoteWorker object...')
+                try:
+                    child = recv_msg(cli, { '_socket': cli, '_reset_sigterm_hnd': True }, comment='server: remote worker')
+                except ConnectionClosedError:
+                    logger.info('Client disconnected before child was successfully created')
+                    cli.close()
+                    return True
+
+                self.children.append(child)
+        else:
+            result = True
+            context = recv_msg(cli, comment='server: context')
+            if context is None:
+                logger.info('Trying to delete context {}', ctx_id)
+                current = self.contexts.pop(ctx_id, None)
+                if current is None:
+                    logger.warning('Context {} does not exist', ctx_id)
+                else:
+                    if not current.wait(timeout=5):
+                        result = current.terminate(timeout=0.1)
+                    logger.info('Context {} removed', ctx_id)
+                    del current
+            else:
+                logger.info('Tryint to register a new context {}', ctx_id)
+                if ctx_id in self.contexts:
+                    logger.warning('Context {} already exists', ctx_id)
+                    result = False
+                else:
+                    self.contexts[ctx_id] = context
+
+            send_msg(cli, result, comment=f'server: context operation - {result}')
+
+        return True
+
     def run(self):
         if self.closed:
             self.open_socket()
@@ -102,59 +162,18 @@ class RemoteServer():
 
                 logger.info('New client: {}', cli_addr)
 
-                logger.debug('Waiting for initial context id and worker flag')
-                header = recv_msg(cli, comment='server: header')
-                if header is None:
-                    if self.close_on_none:
-                        logger.info('"None" received')
+                try:
+                    if not self._serve_client(cli):
                         break
-
-                    continue
-
-                ctx_id, is_worker = header
-                logger.debug('Received context id: {}, worker flag: {}', ctx_id, is_worker)
-
-                if is_worker:
-                    if ctx_id is not None:
-                        logger.debug('Creating a new worker within context: {}', ctx_id)
-                        ctx = self.contexts.get(ctx_id, None)
-                        if ctx is None:
-                            logger.warning('Context {} does not exist!', ctx_id)
-                            cli.close() # let the client know right away, it is waiting for an answer
-                            continue
-
-                        ctx.call(cli)
-                    else:
-                        logger.debug('Waiting for the RemoteWorker object...')
-                        try:
-                            child = recv_msg(cli, { '_socket': cli, '_reset_sigterm_hnd': True }, comment='server: remote worker')
-                        except ConnectionClosedError:
-                            logger.info('Client disconnected before child was successfully created')
-                            continue
-
-                        self.children.append(child)
-                else:
-                    result = True
-                    context = recv_msg(cli, comment='server: context')
-                    if context is None:
-                        logger.info('Trying to delete context {}', ctx_id)
-                        current = self.contexts.pop(ctx_id, None)
-                        if current is None:
-                            logger.warning('Context {} does not exist', ctx_id)
-                        else:
-                            if not current.wait(timeout=5):
-                                result = current.terminate(timeout=0.1)
-                            logger.info('Context {} removed', ctx_id)
-                            del current
-                    else:
-                        logger.info('Tryint to register a new context {}', ctx_id)
-                        if ctx_id in self.contexts:
-                            logger.warning('Context {} already exists', ctx_id)
-                            result = False
-                        else:
-                            self.contexts[ctx_id] = context
-
-                    send_msg(cli, result, comment=f'server: context operation - {result}')
+                except ConnectionClosedError:
+                    logger.info('Client {} disconnected in the middle of its request', cli_addr)
+                    cli.close()
+                except (WorkerTerminatedError, KeyboardInterrupt):
+                    raise
+                except Exception:
+                    # a malformed request or a failure while setting a child up should not bring the whole server down
+                    logger.exception('Error occurred while serving client {}:', cli_addr)
+                    cli.close()
         except (WorkerTerminatedError, KeyboardInterrupt):
             pass
         except Exception:
